@@ -18,3 +18,8 @@ mod escape;
 mod js_bindings;
 mod path;
 mod proc_gen;
+
+// verification hooks (glass_easel_verif): compiled only under the cfg guard
+#[cfg(any(kani, glass_easel_verif))]
+#[path = "/verif/hooks/tc_root.rs"]
+mod verif;
